@@ -10,7 +10,7 @@ m = subprocess.run(["git", "merge", "--no-commit", br], capture_output=True, tex
 print(m.stdout[-1500:], m.stderr[-500:])
 for f in theirs.get("findings", []):
     f["id"] = ren.get(f["id"], f["id"])
-    if not any(g["property"] == f["property"] and g["id"] == f["id"] for g in ours["findings"]):
+    if not any(g["property"] == f["property"] and g["id"] == f["id"] and g.get("signature") == f.get("signature") for g in ours["findings"]):
         ours["findings"].append(f)
 for f in theirs.get("fixed", []):
     if isinstance(f, dict):
